@@ -469,13 +469,17 @@ Definition run_merge (c : minput * obs) : val :=
 Definition all_ok : val := VL [VB true; VB true; VB true; VB true].
 
 (* ------------------------------------------------------------------ C19: crash / EIO points *)
-(* an OSError injected at op k (not performed): every caller lets it propagate, except
-   do_link, which removes its '#new' link when the rename fails *)
+(* an OSError injected at a rename (not performed): every caller lets it propagate, except
+   do_link, which removes its '#new' link when the rename fails.  [eio] is set by the harness
+   only when the faulted call is a rename; k = number of successful calls before it. *)
 Definition eio_cleanup (ops : list op) (k : nat) : list op :=
   match k with
   | O => []
   | S j => match nth_error ops j, nth_error ops k with
            | Some (Link _ t), Some (Rename t' _) => if path_eqb t t' then [Unlink t] else []
+           | Some (Link _ t), Some (Unlink t') =>
+               (* the rename that fails anyway (target is a directory) was the faulted call *)
+               if path_eqb t t' then [Unlink t] else []
            | _, _ => [] end
   end.
 Definition fault_state (i : minput) (chunk k : nat) (eio : bool) : fs :=
